@@ -89,6 +89,9 @@ enum Sig {
 enum Op {
     Schedule { op: OpId, delay: u32, by: Who },
     Cancel { op: OpId, by: Who },
+    /// schedule_op / cancel_op naming the proposer P but carrying nobody's authorization
+    ScheduleUnsigned { op: OpId, delay: u32 },
+    CancelUnsigned { op: OpId },
     Advance(u32),
     Admin { call: Call, sig: Sig, executor_signs: Option<Who> },
     /// grant_role / revoke_role called directly by an ordinary account naming itself as caller and
@@ -213,6 +216,16 @@ impl Tlc {
             Op::Cancel { op, by } => {
                 let a: SVec<Val> = (i.ids[op].clone(), i.who(*by)).into_val(e);
                 call_signed(e, &i.c, "cancel_op", a, &[i.who(*by)]).is_ok()
+            }
+            Op::ScheduleUnsigned { op, delay } => {
+                let (f, args) = i.call_args(op.call);
+                let target = if op.foreign { i.x.clone() } else { i.c.clone() };
+                let a: SVec<Val> = (target, Symbol::new(e, f), args, i.pred_of(*op), salt(e, op.salt), *delay, i.p.clone()).into_val(e);
+                call_signed(e, &i.c, "schedule_op", a, &[]).is_ok()
+            }
+            Op::CancelUnsigned { op } => {
+                let a: SVec<Val> = (i.ids[op].clone(), i.p.clone()).into_val(e);
+                call_signed(e, &i.c, "cancel_op", a, &[]).is_ok()
             }
             Op::Advance(k) => {
                 envx::advance(e, *k);
@@ -417,6 +430,13 @@ impl World for Tlc {
             if m.min_delay > 0 {
                 delays.insert(0, m.min_delay - 1);
             }
+            if op.salt == 1 && !op.foreign && op.call == Call::Delay0 {
+                // a delay whose ready ledger lies beyond u32::MAX (must saturate, never wrap into the past)
+                delays.push(u32::MAX);
+                delays.push(u32::MAX - 50);
+                v.push(Op::ScheduleUnsigned { op, delay: m.min_delay });
+                v.push(Op::CancelUnsigned { op });
+            }
             for d in delays {
                 for by in [Who::P, Who::X] {
                     v.push(Op::Schedule { op, delay: d, by });
@@ -474,6 +494,7 @@ impl World for Tlc {
         match op {
             Op::Schedule { .. } => "schedule".into(),
             Op::Cancel { .. } => "cancel".into(),
+            Op::ScheduleUnsigned { .. } | Op::CancelUnsigned { .. } => "schedule/cancel-without-authorization".into(),
             Op::Advance(_) => "advance".into(),
             Op::DirectRole { .. } => "direct-role-management".into(),
             Op::Admin { sig, .. } => match sig {
@@ -529,6 +550,12 @@ impl World for Tlc {
                 ensure!(*delay >= pre.min_delay, "schedule-delay", "scheduled with delay {} < minimum {}", delay, pre.min_delay);
                 ensure!(pre.ops[o] == OpState::Unset, "schedule-state", "re-scheduled {:?} in state {:?}", o, pre.ops[o]);
                 x.ops.insert(*o, OpState::Scheduled(now.saturating_add(*delay)));
+            }
+            Op::ScheduleUnsigned { .. } | Op::CancelUnsigned { .. } => {
+                return Err(Violation::new(
+                    "role-account-authorization",
+                    format!("{:?} took effect although the named proposer/canceller did not authorize the call", op),
+                ));
             }
             Op::Cancel { op: o, by } => {
                 ensure!(pre.cancellers.contains(by), "cancel-role", "{:?} cancelled without the canceller role", by);
@@ -650,6 +677,7 @@ fn main() {
                     &["schedule", "cancel", "admin-call(one-descriptor)"],
                     &[
                         "direct-role-management",
+                        "schedule/cancel-without-authorization",
                         "schedule",
                         "cancel",
                         "admin-call(no-entry)",
